@@ -197,8 +197,21 @@ def hRDt : Handler
     | _, _ => "bad-op"
   | _ => "bad-op"
 
+def zhCfgOf (anyHour : Bool) : ZhCfg :=
+  { numbersMap := RTV.Gen.DtMaps.timeNumbers_zh, lowBound := RTV.Gen.DtMaps.timeLowBound_zh, ampmAnyHour := anyHour }
+
+/-- zhtime ref variant(1 = ampm for any hour) chinese(0/1) hour min sec quarter half daydesc -> res -/
+def hZhTime : Handler
+  | [ref, variant, chinese, hour, min, sec, quarter, half, daydesc] =>
+    let cfg := zhCfgOf (parseBool variant)
+    let g : ZhGroups := { hour := parseCps hour, min := parseCps min, sec := parseCps sec, quarter := parseCps quarter,
+                          half := parseCps half, daydesc := parseCps daydesc }
+    showExcept showRes (do zhPackTime drvUni cfg g (← zhHandle drvUni cfg (parseBool chinese) g) (parseDT ref))
+  | _ => "bad-op"
+
 def dispatchDtRes (op : String) (args : List String) : Option String :=
   match op with
+  | "dt.zhtime" => some (hZhTime args)
   | "dt.dtfmt" => some (hDtFmt args)
   | "dt.gendates" => some (hGenDates args)
   | "dt.m2t" => some (hM2T args)
